@@ -593,8 +593,15 @@ def check_C17(tier, seed, replay=None):
         inputs.append([rng.choice(bts + [0xF0, 0x9F, 0x98, 0x80, 0xE2, 0x82, 0xAC, 0x0A]) for _ in range(rng.randint(extra_len, extra_len + 2))])
     options = [opt(), opt(allowinv=True), opt(maxexpr=3000), opt(maxexpr=3000, allowinv=True)]
     nin = len(inputs)
+    # left-recursive grammars on input with ill-formed bytes (errors of an abandoned growth attempt, then the same byte again)
+    groups += F.lr_groups(seed + 5, 60 if tier == "quick" else 300, gi0=len(groups) + 1, pure=True)
+    lr_first = len(inputs)
+    inputs += F.all_inputs([F.NN, F.PLUS, 0xFF, 0x80], 4) + [[F.NN, F.PLUS, 0xFF, F.NN], [F.NN, F.MINUS, 0xFF], [F.NN, F.STAR_, 0x80, 120], [F.NN, F.MINUS, 0xC3], [F.NN, F.STAR_, 0xFF]]
+    lrin = list(range(lr_first, len(inputs)))
 
     def plan_for(g):
+        if "lr" in g.tags:
+            return [(ii, oi) for ii in lrin for oi in (0, 1)]
         return [(ii, oi) for ii in range(nin) for oi in ((2, 3) if g.maydiverge else (0, 1))]
     div, tot = run.execute(groups, inputs, options, plan_for, FLAGSETS_2 + [["-optimize-basic-latin"]], lower=[[201, 233]])
     return std_finish(run, div, tot, "E(1) over {., [U+FFFD], [^a], \"U+FFFD\", \"a\", \"a e-acute\", [e-acute]} + labelled/actioned variants + random grammars x ALL byte strings up to the bound over {61 C3 A9 80 FF ED A0 EF BF BD C0 AF} (truncated sequences, overlongs, surrogates, stray continuations, the real U+FFFD) + longer random byte strings x AllowInvalidUTF8 on/off; values, texts, offsets, positions and the invalid-encoding errors compared with PegRef's transcription of utf8.DecodeRune",
